@@ -428,6 +428,10 @@ def run_path_case(case: dict, stats: Stats | None = None) -> dict:
         stats.distinct("path_strings", path_str.replace(root, "<R>"))
         if cl["must_refuse"]:
             stats.inc("nontrivial_path_calls")
+            if len(cl["why"]) == 1 and cl["why"][0].startswith("symlink"):
+                stats.sample("path_case", {"call": kind, "path": path_str.replace(root, "<R>"), "classifier": [w.replace(root, "<R>") for w in cl["why"]],
+                                           "refused": ref, "result": _brief(kind, a).replace(root, "<R>"),
+                                           "operations_recorded": [op.brief(root)[2:4] + [op.outcome] for op in sim.events][:25]}, cap=2)
         if any(w.startswith("symlink") for w in cl["why"]):
             stats.group("probes", "symlink_component_" + _linkkind(cl, root))
     return {"violations": viols, "log": log, "digest": digest(log)}
@@ -1121,7 +1125,8 @@ def main(tier: str, seed: int, args) -> int:
         "rule": "one evaluation = one call of a real tool/function on a generated argument over the generated layout, with every path it touched "
                 "recorded; distinct_nontrivial = distinct (call site, refusal reasons, refused?, set of effective operation kinds) behaviours for "
                 "paths + distinct frozen-reference and URI behaviours + distinct schema names/files that actually opened a file",
-        "samples": sorted(stats.sets.get("path_strings", ()))[:6] + sorted(stats.sets.get("schema_sweep_hits", ()))[:4],
+        "samples": stats.samples.get("path_case", [])[:2] + sorted(stats.sets.get("path_strings", ()))[40:46]
+                   + sorted(stats.sets.get("schema_sweep_hits", ()))[:4],
         "units_done": done, "units_planned": len(us), "runs_per_hour": int(runs / wall * 3600) if wall else 0,
         "path_calls": c.get("path_calls", 0), "distinct_path_strings": len(stats.sets.get("path_strings", ())),
         "path_calls_where_refusal_was_required": c.get("nontrivial_path_calls", 0),
